@@ -110,6 +110,13 @@ def judge(ctx, sc, ims):
                 prev_obs = im[k]
             if op['k'] == 'ilis':
                 prev_ilis = im[k]
+                # ilis(status=s) is the sub-list of ilis() with that status
+                for fld in ('_by_status', '_by_status_w'):
+                    for st, got in (im[k].get(fld) or {}).items():
+                        want = sorted(json.dumps([i[0], i[1]]) for i in im[k]['all'] if i[1] == st)
+                        if sorted(json.dumps(x) for x in got) != want:
+                            ctx.fail('ilis(status=s)=the-ILIs-of-ilis()-with-status-s', sc,
+                                     {'status': st, 'via': 'wn.ilis' if fld == '_by_status' else 'Wordnet.ilis', 'got': got[:6], 'expected': want[:6]})
         finals.append((store.canon_obs(prev_obs), {i: v for i, v in prev_ilis['by_id'].items()}, sorted(map(json.dumps, prev_ilis['all']))))
     if finals[0][1] != finals[1][1] or finals[0][2] != finals[1][2]:
         ctx.fail('ILI-statuses-and-definitions-independent-of-load-order', sc, {'first': finals[0][1], 'second': finals[1][1]})
